@@ -387,6 +387,9 @@ pub fn run(cli: Cli) -> ! {
             crate::sim::run(&c).packets.len()
         })
         .collect();
+    for it in [&items[0], &items[items.len() / 2], &items[items.len() - 1]] {
+        assert_deterministic(&build(it), "C04");
+    }
     let distinct: Mutex<HashSet<String>> = Mutex::new(HashSet::new());
     let errors = AtomicU64::new(0);
     par_for(items.len(), |i| {
